@@ -49,8 +49,19 @@ func (self *BinaryConv) doNative(ctx context.Context, src []byte, desc *thrift.T
 	jp := rt.Mem2Str(src)
 	fsm.Init(0, unsafe.Pointer(desc))
 
+	// NOTICE: the native code decodes base64 strings into buf without checking its capacity
+	// (one decoded string is always shorter than src), so keep a spare zone of len(src) bytes
+	// behind the capacity handed to the native code.
+	spare := len(src)
+	var nbuf []byte
+
 exec:
-	ret = native.J2T_FSM(fsm, buf, &jp, self.flags)
+	// the native code still sees at least len(src) free bytes, as before
+	rt.GuardSlice(buf, spare*2)
+	nbuf = (*buf)[:len(*buf):cap(*buf)-spare]
+	ret = native.J2T_FSM(fsm, &nbuf, &jp, self.flags)
+	// the length may exceed the reduced capacity, but never the real one
+	*buf = (*buf)[:(*rt.GoSlice)(unsafe.Pointer(&nbuf)).Len]
 	if ret != 0 {
 		cont, e := self.handleError(ctx, fsm, buf, src, req, ret, top)
 		if cont && e == nil {
